@@ -207,7 +207,7 @@ func c09Malformed(t *rapid.T) c09Str {
 			c.S = base[:pos+1] + strings.ToUpper(base[pos+1:])
 		}
 	case "hrp-other":
-		h := rapid.SampledFrom([]string{"age", "agf", "age1x", "age-secret-key-", "age-plugin-x-", "bge", "a"}).Draw(t, "hrp")
+		h := rapid.SampledFrom([]string{"age", "agf", "age1x", "age-secret-key-", "age-plugin-x-", "age-plugin-", "age-plugin--", "age1", "bge", "a"}).Draw(t, "hrp")
 		up := rapid.Bool().Draw(t, "upper")
 		data := scalar
 		s := refage.Bech32EncodeGroups(h, refage.To5(data), up)
